@@ -70,7 +70,7 @@ ssize_t HeaderStreamProto::onRecvData(const void *data_ptr, size_t data_size)
         return -2;
     }
 
-    if (content_size + kHeadSize > data_size)   //! 不够
+    if (static_cast<size_t>(content_size) + kHeadSize > data_size)   //! 不够。注意要先转成size_t，否则32位加法会回绕
         return 0;
 
     const char *str_ptr = static_cast<const char*>(unpack.fetchNoCopy(content_size));
